@@ -360,6 +360,10 @@ func c05mutateBytes(r *h.Rand, b []byte, other []byte) ([]byte, string) {
 	case 3, 4:
 		if len(b) >= 4 {
 			v := []uint32{0, 1, 1 << 28, 1<<28 + 1, 1 << 31, 1<<32 - 1, 0x7fffffff, 1 << 24, uint32(len(b))}[r.Intn(9)]
+			if r.P(1, 4) { // a count whose product with an element size wraps around 2^32
+				k := uint64(r.Range(2, 64))
+				v = uint32((uint64(1)<<32+k-1)/k) + uint32(r.Intn(2))
+			}
 			at := r.Intn(len(b) - 3)
 			if r.Bool() {
 				copy(b[at:], le32(v))
@@ -655,6 +659,39 @@ func init() {
 					c.Nontrivial(h.Mix(2, idx))
 					if idx%97 == 5 {
 						c.Sample(map[string]interface{}{"family": "wkb", "input_hex": hex.EncodeToString(msg), "how": what + ", every prefix"})
+					}
+				},
+			},
+			{
+				// element counts c for which c*k wraps around 2^32 (k = per-element size a decoder might multiply by)
+				Name: "wkb-wrapping-counts", Count: h.Fixed(63*2*6*2, 63*2*6*2), Exhaustive: h.Always,
+				Run: func(c *h.Ctx, idx uint64, r *h.Rand) {
+					k := uint64(2 + idx%63)
+					cnt := uint32((uint64(1)<<32+k-1)/k) + uint32((idx/63)%2)
+					typ := []uint32{4, 2, 3, 5, 6, 7}[(idx/126)%6]
+					bo := byte((idx / 756) % 2)
+					enc := le32
+					if bo == 0 {
+						enc = be32
+					}
+					msg := append([]byte{bo}, enc(typ)...)
+					msg = append(msg, enc(cnt)...)
+					if typ == 3 { // polygon: one ring with that count
+						msg = append([]byte{bo}, enc(typ)...)
+						msg = append(msg, enc(1)...)
+						msg = append(msg, enc(cnt)...)
+					}
+					// some payload: a nested point header and coordinates
+					pt := make([]byte, 16)
+					binary.LittleEndian.PutUint64(pt, math.Float64bits(1.5))
+					msg = append(msg, bo)
+					msg = append(msg, enc(1)...)
+					msg = append(msg, pt...)
+					msg = append(msg, pt...)
+					c05run(c, "wkb", msg, fmt.Sprintf("count %d = ceil(2^32/%d)+%d, type %d", cnt, k, (idx/63)%2, typ))
+					c.Nontrivial(h.Mix(4, idx))
+					if idx%211 == 3 {
+						c.Sample(map[string]interface{}{"family": "wkb", "input_hex": hex.EncodeToString(msg), "count": cnt, "wraps_with_element_size": k})
 					}
 				},
 			},
